@@ -131,6 +131,11 @@ def cfg_cases(draw, tier):
     spec = draw(GC.cfg_specs(max_vars=4, terms=("a", "b"), simple=True, allow_norule=False, max_len=3))
     used = sorted({x for _, rhs in spec["R"] for x in rhs if x not in spec["V"]})
     spec["T"] = used
+    if draw(st.booleans()):
+        # the rules of one variable need not be adjacent in the rule list (in-place transformations append rules); the start variable keeps the first rule
+        first = next(i for i, r in enumerate(spec["R"]) if r[0] == spec["S"])
+        rest = spec["R"][:first] + spec["R"][first + 1:]
+        spec["R"] = [spec["R"][first]] + list(draw(st.permutations(rest)))
     # the grammar object's own empty-word symbol: the default, or '_', or a letter that is not a terminal
     return {"cfg": spec, "eps": draw(st.sampled_from([None, None, "_", "e", "z"]))}
 
